@@ -385,7 +385,7 @@ for fn in sorted(os.listdir(cdir)):
         for j, c in enumerate(doc['cases']):
             cases.append(('corpus-%s-%d' % (fn[4:-5], j), c, None, None))
 rng = chk.rng('stream')
-N = 40000 if chk.thorough else 2500
+N = 70000 if chk.thorough else 2500
 for i in range(N):
     c = gen_case(rng, big=chk.thorough)
     cases.append(('gen-%d' % i, c, None, None))
